@@ -51,10 +51,19 @@ const (
 	opPath
 	opUnpackTwice
 	opOtherGetters
+	opMergeChildDotted
+	opMergeFieldOpts
 	opKinds
 )
 
-var opNames = [...]string{"Unpack", "String", "Int", "Child+Unpack", "Has", "CountField", "GetFields", "FlattenedKeys", "Merge(shared)", "Merge({k: shared})", "Merge([shared])", "Unpack(typed)", "Child.Path", "Unpack(captured configs, twice)", "Bool/Uint/Float/IsDict/IsArray/PathOf"}
+// Option values an application keeps in variables and hands to every call (and every goroutine).
+var (
+	fieldAppendL  = ucfg.FieldAppendValues("l")
+	fieldReplaceO = ucfg.FieldReplaceValues("o")
+	fieldPrependS = ucfg.FieldPrependValues("s.l")
+)
+
+var opNames = [...]string{"Unpack", "String", "Int", "Child+Unpack", "Has", "CountField", "GetFields", "FlattenedKeys", "Merge(shared)", "Merge({k: shared})", "Merge([shared])", "Unpack(typed)", "Child.Path", "Unpack(captured configs, twice)", "Bool/Uint/Float/IsDict/IsArray/PathOf", "Merge({k: shared.Child, k.zz: 1})", "Merge(shared, shared Field*Values options)"}
 
 func (o Op) String() string { return opNames[o.Kind] + "(" + o.Name + ")" }
 
@@ -179,6 +188,42 @@ func exec(shared *ucfg.Config, op Op, opts []ucfg.Option) string {
 		first := fmt.Sprintf("%s %s %s %s", canonCfg(t.S, opts), canonCfg(t.L, opts), canonCfg(t.O, opts), errStr(err1))
 		err2 := shared.Unpack(&t, opts...)
 		return first + " | " + fmt.Sprintf("%s %s %s %s", canonCfg(t.S, opts), canonCfg(t.L, opts), canonCfg(t.O, opts), errStr(err2))
+	case opMergeChildDotted:
+		// a section of the shared config embedded in the input, next to a dotted key below it
+		var child *ucfg.Config
+		var err error
+		for _, f := range shared.GetFields() {
+			if c, cerr := shared.Child(f, -1, opts...); cerr == nil && c != nil && c.IsDict() {
+				child = c
+				break
+			}
+		}
+		if child == nil {
+			return "no section"
+		}
+		before := canonCfg(child, opts)
+		private := ucfg.New()
+		mopts := append(append([]ucfg.Option{}, opts...), ucfg.PathSep("."))
+		err = private.Merge(map[string]interface{}{"k": child, "k.zz": uint64(1)}, mopts...)
+		res := canonCfg(private, opts) + " " + errStr(err) + " | section " + before + " -> " + canonCfg(child, opts)
+		scribble(private, 0)
+		return res
+	case opMergeFieldOpts:
+		// the reader's own config holds a list and an object under names of the shared config;
+		// the per-field policies are Option values shared by all readers
+		pre := map[string]interface{}{"l": []interface{}{"m1", "m2", "m3"}, "o": map[string]interface{}{"mine": uint64(1)}, "s": map[string]interface{}{"l": []interface{}{"m"}}}
+		private, _ := ucfg.NewFrom(pre)
+		mopts := append([]ucfg.Option{}, opts...)
+		switch len(op.Name) % 3 {
+		case 0:
+			mopts = append(mopts, fieldAppendL)
+		case 1:
+			mopts = append(mopts, fieldAppendL, fieldReplaceO)
+		default:
+			mopts = append(mopts, fieldReplaceO, fieldPrependS, fieldAppendL)
+		}
+		err := private.Merge(shared, mopts...)
+		return canonCfg(private, opts) + " " + errStr(err)
 	case opOtherGetters:
 		b, e1 := shared.Bool(op.Name, -1, opts...)
 		u, e2 := shared.Uint(op.Name, -1, opts...)
@@ -326,7 +371,7 @@ func Run(t *testing.T, r *sim.R) {
 		tk := &task{id: i, opts: w.TaskOpts(i), preempt: map[int]bool{}}
 		nops := 1 + tp.Choose(3, "n-ops")
 		for j := 0; j < nops; j++ {
-			k := tp.Weighted([]int{4, 3, 1, 2, 1, 1, 1, 2, 2, 2, 2, 2, 1, 2, 1}, "op-kind")
+			k := tp.Weighted([]int{4, 3, 1, 2, 1, 1, 1, 2, 2, 2, 2, 2, 1, 2, 1, 2, 3}, "op-kind")
 			tk.ops = append(tk.ops, Op{Kind: k, Name: names[tp.Choose(len(names), "op-name")]})
 		}
 		tasks = append(tasks, tk)
@@ -520,7 +565,7 @@ func RunRace(t *testing.T, r *sim.R) {
 		tk := rt{opts: w.TaskOpts(i)}
 		nops := 1 + tp.Choose(3, "n-ops")
 		for j := 0; j < nops; j++ {
-			k := tp.Weighted([]int{4, 3, 1, 2, 1, 1, 1, 2, 2, 2, 2, 2, 1, 2, 1}, "op-kind")
+			k := tp.Weighted([]int{4, 3, 1, 2, 1, 1, 1, 2, 2, 2, 2, 2, 1, 2, 1, 2, 3}, "op-kind")
 			tk.ops = append(tk.ops, Op{Kind: k, Name: names[tp.Choose(len(names), "op-name")]})
 		}
 		tasks = append(tasks, tk)
